@@ -3,6 +3,7 @@ import json
 import os
 from concurrent.futures import ThreadPoolExecutor
 
+import code_tie
 import vlib
 
 META = {
@@ -27,10 +28,8 @@ META = {
 
 MODEL = ["theories/Kv/KvCorr.vo"]
 PROOFS = ["theories/Props/C05.vo"]
-STATEMENT_FILES = ["theories/Props/C05.v", "theories/Kv/KvGen.v", "theories/Kv/CodeRefine.v"]
-# Go bodies translated to Gallina on every run (gen/gotrans.go -> Gen/CodeKv.v) and proved equal to the model
-# for all inputs (Kv/CodeRefine.v, C05_code_*); the hash is a Section variable.
-SEMANTIC_TIE = ["pisces.kvMapKey", "pisces.keyHash", "pisces.partialKeys"]
+STATEMENT_FILES = ["theories/Props/C05.v", "theories/Kv/KvGen.v"]
+SEMANTIC_TIE = code_tie.functions("C05")   # Go bodies proved equal to the model (Props/C05Code.v)
 
 ERR = {"not_found": "ENotFound", "exists": "EExists", "key_too_long": "EKeyTooLong", "decode": "EDecode",
        "user": "EUser", "unordered": "EUnordered", "cancel": "ECancel", "other": "EOther", "panic": "EPanic"}
@@ -427,8 +426,7 @@ def run(ck):
         ck.discharged = list(ck.obligations)
     if ck.thorough and proofs_ok:
         ck.coqchk(["Verif.Props.C05"])
-    ck.code_cex("Kv", force=not proofs_ok)
-    ck.coverage["semantic_tie"] = SEMANTIC_TIE
+    code_tie.run(ck, "C05")
 
     binp = ck.build_harness("c05")
     cases = []
@@ -533,8 +531,6 @@ def run(ck):
                     "harness c05 on mem+sqlite vs vm_compute of Kv/KvCorr.v)",
         trusted=["Coq 8.16.1 kernel + vm_compute",
                  "translator gen/kv.go (SQL text -> statement shape, Sprintf and bound arguments, event order, KVOps binding)",
-                 "translator gen/gotrans.go + Lib/GoLib.v (Go body -> Gallina, proved equal to the model for all "
-                 "inputs: %s)" % ", ".join(SEMANTIC_TIE),
                  "harness/cmd/c05 + checks/c05.py projection and comparison",
                  "modelled not verified: SQLite statement semantics, BINARY collation, NOT NULL / UNIQUE; Go map and sort",
                  "psql_kv.go only through its generated statement table (PostgreSQL cannot run here)"],
